@@ -108,6 +108,8 @@ func (v *Variants) Get(name string) *Env {
 				opts = append(opts, server.WithListObjectsBufferCapacity(n))
 			case 'p':
 				opts = append(opts, server.WithListObjectsNumProcs(n))
+			case 'd': // ListObjects / ListUsers deadline in seconds (the default of 3 s truncates silently on a loaded machine)
+				opts = append(opts, server.WithListObjectsDeadline(time.Duration(n)*time.Second), server.WithListUsersDeadline(time.Duration(n)*time.Second))
 			case 'b':
 				opts = append(opts, server.WithResolveNodeBreadthLimit(uint32(n)))
 			case 'r':
@@ -238,6 +240,8 @@ func C02(run *Run) {
 	serverVariants := []string{"server", "server:thr", "server:b1:r1", "server:checkopt"}
 	loEngines := []string{"classic", "weighted", "pipeline", "pipeline:c1:q1:p1", "pipeline:c2:q0:p3", "classic:b1:r1", "weighted:b2:r3", "classic:thr"}
 	var mu sync.Mutex
+	// more candidates than the engines' internal buffers hold, every one needing a follow-up Check
+	runWide(ctx, v, rec, run, []string{"classic:d20", "classic:b1:d20", "classic:b1:r1:d20", "classic:b3:d20", "weighted:d20", "weighted:b1:r1:d4", "weighted:b2:r3:d20", "pipeline:d20", "classic:thr:d20"}, run.Pick(130, 400))
 	for c := 0; c < nCases; c++ {
 		cs, _ := GenCase(r, c, GenOpts{ForceShapes: true})
 		if err := v.Base.Setup(ctx, cs.Model, cs.Tuples); err != nil {
